@@ -86,7 +86,7 @@ func mkDefs(variant int) *definition.PipelinesDef {
 	tasks := func(n int) map[string]definition.TaskDef {
 		m := map[string]definition.TaskDef{}
 		for i := 0; i < n; i++ {
-			td := definition.TaskDef{Script: []string{fmt.Sprintf("step %d v%d", i, variant)}, AllowFailure: i%3 == 2}
+			td := definition.TaskDef{Script: []string{fmt.Sprintf("sleep 0.0%d", 1+(i+variant)%3), []string{"true", "true", "exit 1"}[(i+variant)%3]}, AllowFailure: i%3 == 2}
 			if i > 0 && i%2 == 1 {
 				td.DependsOn = []string{fmt.Sprintf("t%d", i-1)}
 			}
@@ -100,6 +100,9 @@ func mkDefs(variant int) *definition.PipelinesDef {
 		"c": {Concurrency: 3, QueueLimit: nil, RetentionPeriod: 30 * time.Millisecond, ContinueRunningTasksAfterFailure: true, Tasks: tasks(4), SourcePath: "gen"},
 		"d": {Concurrency: 1, QueueLimit: intp(2), StartDelay: 4 * time.Millisecond, QueueStrategy: definition.QueueStrategyReplace, RetentionCount: 1, Tasks: tasks(2), SourcePath: "gen"},
 	}}
+	// jobs of this pipeline always run on the real task runner; they are canceled several times at once (see below)
+	d.Pipelines["real"] = definition.PipelineDef{Concurrency: 4, QueueLimit: intp(0), RetentionCount: 2, Tasks: map[string]definition.TaskDef{
+		"x": {Script: []string{"sleep 0.3"}}, "y": {Script: []string{"sleep 0.3"}}}, SourcePath: "gen"}
 	if variant == 1 {
 		delete(d.Pipelines, "d")
 		d.Pipelines["e"] = definition.PipelineDef{Concurrency: 2, QueueLimit: intp(0), RetentionCount: 1, Tasks: tasks(2), SourcePath: "gen"}
@@ -131,7 +134,14 @@ func main() {
 	defer cancelCtx()
 	var created uint64
 	r, err := prunner.NewPipelineRunner(ctx, mkDefs(0), func(j *prunner.PipelineJob) taskctl.Runner {
-		return &stressRunner{stop: make(chan struct{}), seed: *seed + atomic.AddUint64(&created, 1)}
+		n := atomic.AddUint64(&created, 1)
+		if n%5 == 0 || j.Pipeline == "real" {
+			// every fifth job runs on the real task runner (real processes): its Cancel / Run / callbacks are part of the race surface
+			if tr, err := taskctl.NewTaskRunner(os_, taskctl.WithKillTimeout(200*time.Millisecond)); err == nil {
+				return tr
+			}
+		}
+		return &stressRunner{stop: make(chan struct{}), seed: *seed + n}
 	}, ds, os_)
 	if err != nil {
 		panic(err)
@@ -193,7 +203,8 @@ func main() {
 				}
 			}
 			for _, t := range j.Tasks {
-				if t.Status == "done" && t.Start == nil {
+				// (an allow_failure task that was refused after a cancel is "done" without ever having started: System.v do_run_begin / do_notify)
+				if t.Status == "done" && t.Start == nil && !t.AllowFailure {
 					invFail("done-task-without-start", j.ID.String()+" task "+t.Name)
 				}
 				if t.Status != "waiting" && t.Status != "running" && t.Status != "done" && t.Status != "error" && t.Status != "canceled" && t.Status != "skipped" {
@@ -211,6 +222,29 @@ func main() {
 	counts := make([]int64, 12)
 	deadline := time.Now().Add(time.Duration(*ms) * time.Millisecond)
 	var wg sync.WaitGroup
+	// one caller cancels a running job of the real task runner from three goroutines at once (a client that repeats its request,
+	// the fail-fast path and a shutdown do the same)
+	wg.Add(1)
+	go func() {
+		defer wg.Done()
+		for time.Now().Before(deadline) {
+			j, err := r.ScheduleAsync("real", prunner.ScheduleOpts{User: "u"})
+			if err != nil {
+				time.Sleep(10 * time.Millisecond)
+				continue
+			}
+			addID(j.ID)
+			id := j.ID
+			time.Sleep(30 * time.Millisecond)
+			var cw sync.WaitGroup
+			for k := 0; k < 3; k++ {
+				cw.Add(1)
+				go func() { defer cw.Done(); _ = r.CancelJob(id) }()
+			}
+			cw.Wait()
+			time.Sleep(20 * time.Millisecond)
+		}
+	}()
 	for w := 0; w < *workers; w++ {
 		wg.Add(1)
 		go func(w int) {
